@@ -739,6 +739,20 @@ func possibleStructType(tname syntax.TypeId, lookup *syntax.TypeLookup) bool {
 	return ok
 }
 
+// Returns the type of the value for the given key in a map or struct of the
+// given type: for a struct which is known, the type of the member.
+func memberTypeId(kind syntax.ExpKind, key string,
+	tname syntax.TypeId, lookup *syntax.TypeLookup) syntax.TypeId {
+	if kind == syntax.KindStruct && lookup != nil {
+		if t, ok := lookup.Get(tname).(*syntax.StructType); ok {
+			if member := t.Table[key]; member != nil {
+				return member.Tname
+			}
+		}
+	}
+	return tname
+}
+
 // Recursively search an expression to convert MapExp to struct types where
 // appropriate.  This should only get applied for expression types which are
 // parsed from json, as opposed to those parsed from mro.
@@ -827,7 +841,8 @@ func convertToExp(parser *syntax.Parser, split bool, val json.Marshaler,
 		}
 		for k, v := range val {
 			if e, err := convertToExp(parser, false,
-				v, tname, lookup); err != nil {
+				v, memberTypeId(res.Kind, k, tname, lookup),
+				lookup); err != nil {
 				return &res, err
 			} else {
 				res.Value[k] = e
@@ -847,7 +862,8 @@ func convertToExp(parser *syntax.Parser, split bool, val json.Marshaler,
 		}
 		for k, v := range val {
 			if e, err := convertToExp(parser, false,
-				v, tname, lookup); err != nil {
+				v, memberTypeId(res.Kind, k, tname, lookup),
+				lookup); err != nil {
 				return &res, err
 			} else {
 				res.Value[k] = e
